@@ -151,8 +151,18 @@ def lane_main(args):
     t_start = time.time()
     idxs = range(args.lane, args.runs, args.lanes)
     want_digests = args.digests
+    run_timeout = min(args.lane_timeout, 600)     # no single run comes near this; a run that does is blocked natively
+    cur_f = open(args.out + ".cur", "w")
     for n, i in enumerate(idxs):
         rs, workload, knobs, sched_seed = generate(check, args.seed, args.tier, i)
+        # which run is executing (read by the driver if this lane dies or hangs: a task blocked NATIVELY while holding
+        # the baton cannot be unwound by the kernel, only reported)
+        cur_f.seek(0)
+        cur_f.write(json.dumps({"index": i, "seed": args.seed, "workload": workload, "knobs": knobs})[:20000])
+        cur_f.truncate()
+        cur_f.flush()
+        faulthandler.cancel_dump_traceback_later()
+        faulthandler.dump_traceback_later(run_timeout, exit=True)
         rec, k = execute(check, workload, knobs, sched_seed)
         agg["runs"] += 1
         st = rec["status"]
@@ -202,8 +212,6 @@ def lane_main(args):
                     agg["harness"].append(full)
         if n % 50 == 0:
             gc.collect()
-            faulthandler.cancel_dump_traceback_later()
-            faulthandler.dump_traceback_later(args.lane_timeout, exit=True)
     agg["violation_counts"] = per_sig
     agg["wall"] = time.time() - t_start
     for key in ("sigs", "nontrivial_sigs", "loc_pairs"):
@@ -272,13 +280,15 @@ def run_lanes(check, tier, seed, runs, digests=False, lanes=LANES, procs=None, t
                     p.kill()
                     p.wait()
                     errf.close()
-                    errors.append((l, "timeout", _tail(os.path.join(rundir, f"lane{l}.err"))))
+                    errors.append((l, "timeout", _tail(os.path.join(rundir, f"lane{l}.err"))
+                                   + "\n[lane was executing] " + _tail(out + ".cur", 1500)))
                     del running[l]
                 continue
             errf.close()
             del running[l]
             if rc != 0 or not os.path.exists(out):
-                errors.append((l, f"exit {rc}", _tail(os.path.join(rundir, f"lane{l}.err"))))
+                errors.append((l, f"exit {rc}", _tail(os.path.join(rundir, f"lane{l}.err"))
+                               + "\n[lane was executing] " + _tail(out + ".cur", 1500)))
             else:
                 with open(out) as f:
                     outs[l] = json.load(f)
